@@ -220,8 +220,16 @@ func findPattern(v interface{}) string {
 // BindSignature / BindParsed / SetStub configure the contract stubs of symbolic runs; natively the harness
 // uses real keys, signatures and parsing instead, so they do nothing.
 func BindSignature(sig, key, payload interface{}) {}
+
+// NewSignature (symbolic runs only) yields a *dsig.Signature carrying a JWS and bound to (key, payload).
+func NewSignature(key, payload interface{}) interface{} { return nil }
 func BindParsed(v interface{})                    {}
 func SetStub(name string, v interface{})          {}
+
+// BindContent ties a document object to an abstract content token (symbolic runs); DigestOf is the digest such
+// content must have. Natively the harness builds real documents and computes real digests instead.
+func BindContent(obj interface{}, token int64) {}
+func DigestOf(token int64) string             { return "" }
 
 // PublishedExtension reads the definition of an extension key from the published files under
 // data/addons, data/regimes and data/catalogues: its allowed codes and / or its pattern.
